@@ -160,10 +160,24 @@ def _rewrite(t, memo, found):
     return r
 
 
-def defuel(terms, fuel=1):
+_FEAS_ONLY = set()     # functions abstracted in feasibility queries only (DictIdx: z3 spins on it there, ignoring its limits)
+
+
+def register_feasibility_only(F, params, body):
+    _DEFS[F.name()] = (F, params, body)
+    _FEAS_ONLY.add(F.name())
+
+
+def defuel(terms, fuel=1, feasibility=False):
     """terms (z3 Bools) -> (rewritten terms, definition instances)."""
-    if not _DEFS:
+    if not _DEFS or (not feasibility and set(_DEFS) <= _FEAS_ONLY):
         return list(terms), []
+    if not feasibility and _FEAS_ONLY:
+        saved = {n: _DEFS.pop(n) for n in list(_FEAS_ONLY) if n in _DEFS}
+        try:
+            return defuel(terms, fuel, feasibility=True)
+        finally:
+            _DEFS.update(saved)
     memo, found = {}, {}
     out = [_rewrite(t, memo, found) for t in terms]
     axioms, done = [], set()
@@ -177,3 +191,6 @@ def defuel(terms, fuel=1):
             inst = z3.substitute(body, *list(zip(params, kids)))
             axioms.append(app == _rewrite(inst, memo, found))
     return out, axioms
+
+
+register_feasibility_only(V.DictIdx, *V.DICTIDX_DEF[0])
